@@ -147,6 +147,13 @@ theorem cstr_plus_string {r : Rep} {s a : Bytes} (h : Models r s) (ha : NulFree 
   obtain ⟨r', h1, hm1⟩ := append_ext hm0 h.2.2.1
   exact ⟨r', by unfold Rep.rconcat; rw [h0, Option.bind_some, h.toList]; exact h1, hm1⟩
 
+/-- `char + String` (`String s(c); s += b;`): in bounds, well-formed, the text is `c :: b` -/
+theorem char_plus_string {r : Rep} {s : Bytes} (h : Models r s) (c : UInt8) (hc : c ≠ 0) :
+    ∃ r', Rep.rconcatChar c r = some r' ∧ Models r' (c :: s) := by
+  obtain ⟨r0, h0, hm0⟩ := ofChar_spec c hc
+  obtain ⟨r', h1, hm1⟩ := append_ext hm0 h.2.2.1
+  exact ⟨r', by unfold Rep.rconcatChar; rw [h0, Option.bind_some, h.toList]; exact h1, hm1⟩
+
 /-- `trim()` (in place) and `trimmed()` remove exactly the leading and trailing blanks -/
 theorem trim_removes_blanks {r : Rep} {s : Bytes} (h : Models r s) :
     (∃ r', r.trim = some r' ∧ Models r' ((s.dropWhile isSpace).reverse.dropWhile isSpace).reverse) ∧
